@@ -10,7 +10,7 @@
     templates and environments by the C01 check.  Attribute names are covered for plain characters (F06).
     OBLIGATIONS: C01_static_tree_reads_as_its_html C01_static_body_reads_as_its_html C01_static_template_code
                  C01_static_template_literal_value C01_static_document_survives_whitespace_pass
-                 C01_template_with_interpolation_code C01_segments_of_static_tree C01_nonvacuous C01_nonvacuous_dynamic *)
+                 C01_template_with_interpolation_code C01_segments_of_static_tree C01_nonvacuous C01_nonvacuous_dynamic C01_nonvacuous_helpers *)
 From GV Require Import Compiler.Compile Base.Regex Proofs.Utf8Proofs Proofs.QuoteProofs Proofs.EmitProofs Proofs.StaticProofs Proofs.StaticNukeProofs Proofs.DynamicProofs Proofs.SegProofs.
 From Coq Require Import Lia.
 Open Scope N_scope.
@@ -61,7 +61,8 @@ Theorem C01_static_document_survives_whitespace_pass : forall l,
 Proof. exact nuke_static_document. Qed.
 Print Assumptions C01_static_document_survives_whitespace_pass.
 
-(** templates with interpolation, `=` scripts, unescaped `!=` / `!` lines, dynamic and conditional attributes, and
+(** templates with interpolation, `=` scripts, unescaped `!=` / `!` lines, dynamic and conditional attributes, object
+    references `[obj]` (goht.ObjectID / BuildClassList) and `@attributes` (goht.BuildAttributeList), and
     `-` lines (Go statements, blocks written without braces: if / else if / else chains, for, switch with its case lines):
     the generated body is a run of literal chunks, dynamic blocks and Go statements `stmt { ... }`, [denotes],
     standing for the segments [segs_list body]: literal HTML ([SLit]), for each `= expr` / `#{expr}` the
@@ -187,3 +188,28 @@ Proof.
   repeat dn1. all: try lia; try discriminate; try reflexivity.
 Qed.
 Print Assumptions C01_nonvacuous_dynamic.
+
+(** object reference and @attributes: the id, the class list and the extra attributes come from the runtime helpers,
+    with exactly the written expressions as arguments *)
+Definition ex3_src : bytes :=
+  lit "@goht T(u User, m map[string]bool) {" ++ [10; 9] ++ lit "%p#x.c[u]{@attributes: #{m}} hi" ++ [10] ++ lit "}" ++ [10].
+Definition ex3_items : list node :=
+  Eval vm_compute in match compile_parse ex3_src with ODone (Node _ items) None => items | _ => [] end.
+
+Example C01_nonvacuous_helpers :
+  match ex3_items with
+  | Node (KGoht o) body :: _ =>
+      Forall dyn_node body /\ kids_ok body /\
+      match segs_list false body with
+      | [SLit t; SObjId e; SLit i; SClassList args; SAttrList cmd; SLit _; _; _; _] =>
+          t = lit "<p" /\ e = lit "u" /\ i = lit " id=""x""" /\ args = lit """c"", goht.ObjectClass(u)" /\ cmd = lit "m"
+      | _ => False
+      end
+  | _ => False
+  end.
+Proof.
+  cbv [ex3_items]. split; [|split; [vm_compute; repeat split; try reflexivity; intros; try assumption; discriminate|vm_compute; repeat split; reflexivity]].
+  repeat dn1. all: try lia; try discriminate; try reflexivity.
+  all: intros o0 Ho; injection Ho as <-; reflexivity.
+Qed.
+Print Assumptions C01_nonvacuous_helpers.
